@@ -35,7 +35,7 @@ PluralTags(ev, res) ==
                              THEN {"selected:" \o x \o ":" \o CountToks[i]} ELSE {}
                          : i \in DOMAIN CountToks } : x \in LocSet }
       \cup (LET got == SelectSeq(ev.load.warns, LAMBDA w : w.kind = "unused")
-                exp == { [kind |-> "unused", locale |-> x, at |-> [ns |-> None, path |-> <<"k">>], form |-> f, rt |-> res.ty]
+                exp == { [kind |-> "unused", locale |-> x, at |-> [ns |-> (IF "NS" \in DOMAIN IOEnv THEN IOEnv.NS ELSE None), path |-> <<"k">>], form |-> f, rt |-> res.ty]
                          : x \in LocSet, f \in res.forms } IN
             LET expU == { w \in exp : w.form \notin Range(Oracle.categories[w.locale][res.ty]) } IN
             (IF Range(got) # expU THEN {"unused-warnings"} ELSE {})
